@@ -1530,6 +1530,10 @@ def check_c05(model, rep, tier):
     r_gate(model, rep, tier)
     r_hdr_current(model, rep)
     r_setcur(model, rep)
+    # every gate reads header.version_tuple: it must be recomputed from the version string on each access (a memo that one of
+    # the writers of ``version`` forgets to clear makes a legacy document read as current, or the other way round)
+    from .validation import r_version_tuple_fresh
+    r_version_tuple_fresh(model, rep)
     r_legacy_map(model, rep)
     r_option_lookup(model, rep)
     r_doc_sections(model, rep, sorted(DOC_SECTIONS))
